@@ -582,8 +582,23 @@ func (b *BaseStore) Load(ctx context.Context, amount int) error {
 
 			span.AddEvent("store-head-loaded")
 
+			// the log panics when asked to keep more entries than the joined log holds
+			size := amount
+			if size > 0 {
+				merged := oplog.Len()
+				for _, e := range l.GetEntries().Slice() {
+					if _, ok := oplog.Get(e.GetHash()); !ok {
+						merged++
+					}
+				}
+
+				if size > merged {
+					size = -1
+				}
+			}
+
 			span.AddEvent("store-heads-joining")
-			if _, inErr = oplog.Join(l, amount); inErr != nil {
+			if _, inErr = oplog.Join(l, size); inErr != nil {
 				span.AddEvent("store-heads-joining-failed")
 				// err = fmt.Errorf("unable to join log: %w", err)
 				// TODO: log
